@@ -38,6 +38,37 @@ ADDRS_WIDE = ADDRS + [["10.0.0.2", 50000], ["1", 50000], ["e80::1%eth0", 62000],
 EMPTY = ["", 0]
 # dynamic keys incl. near-misses of built-in field names (no fuzzy / case-insensitive matching may happen)
 DYN_KEYS = ["registered", "rdac_step", "custom", "Callsign", "address_in_", "dmr-id"]
+
+
+def _harvest_keys():
+    """attribute names that mean something elsewhere in the library (value pool only, never part of an oracle): every SNMP
+    OID string read_snmp_values() feeds into patch(), and the storage attribute names the protocol handlers use (after
+    seeded change C20-4: a patch loop that treats three OID keys specially)"""
+    keys = []
+    try:
+        from okdmr.dmrlib.hytera.snmp import SNMP
+
+        keys += sorted(v for k, v in vars(SNMP).items() if k.startswith("OID_") and isinstance(v, str))
+    except Exception:
+        pass
+    try:
+        import okdmr.dmrlib.protocols.hytera.p2p_datagram_protocol as p2p
+        import okdmr.dmrlib.protocols.hytera.rdac_datagram_protocol as rdac
+
+        for mod in (p2p, rdac):
+            for cls in vars(mod).values():
+                if isinstance(cls, type):
+                    keys += sorted(v for k, v in vars(cls).items() if k.startswith("STORAGE_ATTR") and isinstance(v, str))
+    except Exception:
+        pass
+    out = []
+    for k in keys:
+        if k not in out and k not in DYN_KEYS:
+            out.append(k)
+    return out
+
+
+DYN_KEYS = DYN_KEYS + _harvest_keys()
 ADDR_FIELDS = ["address_in", "address_out", "address_nat"]
 SCALAR_FIELDS = {"dmr_id": [0, 1, 2, 2300001, 16777215, 4294967295], "callsign": ["", "OK1AAA", "OK2BBB", "ok1aaa"], "serial": ["S1", "S2"], "snmp_enabled": [True, False], "nat_enabled": [True, False]}
 FIELDS = ADDR_FIELDS + list(SCALAR_FIELDS)
@@ -269,7 +300,7 @@ ALPHABET = [
     {"op": "match_uuid", "rec": 1},
     {"op": "attr", "rec": 0, "key": "registered", "value": 0},
     {"op": "delete_attr", "rec": 0, "key": "registered"},
-]
+] + ([{"op": "save", "rec": 0, "patch": {k: "Praha" for k in DYN_KEYS if k.startswith("1.3.6.1.4.1.40297.1.2.4.")}}] if any(k.startswith("1.3.6.1.4.1.40297.1.2.4.") for k in DYN_KEYS) else [])
 
 
 def drv_exhaustive(ctx: Ctx, sub: SubCheck):
